@@ -1066,4 +1066,56 @@ theorem pathRemovePrefix_dot_witness :
     ∧ (comps [DOT, SLASH, 0x61#8, SLASH, 0x62#8]).drop
         (lcpLen (comps [DOT, SLASH, 0x61#8, SLASH, 0x62#8]) (comps [0x61#8])) = [[0x62#8]] := by decide
 
+
+/-! ## path_next / path_iterate, pointer level
+
+The cursor models of Model.lean already fault on a read behind the allocation;
+here the same routines with explicit indices into the allocation. -/
+
+/-- `path_next(path, &len)`: every `*path`, `path[1]`, `*end` is inside the
+allocation (in fact not behind the terminator), both loops end, and the result
+is that of `pathNext_spec` -/
+theorem pathNextP_safe (p junk : Str) (hn : NUL ∉ p) :
+    pathNextP (p ++ NUL :: junk) 0
+      = .ok (match skipRef p with
+             | [] => none
+             | c :: r => some (p.length - (c :: r).length, (headComp (c :: r)).length)) := by
+  have h := pathNext_spec p junk hn
+  rw [pathNextP_eq (p ++ NUL :: junk) 0 (by omega) _ (by rw [List.drop_zero]; exact h)]
+  cases skipRef p <;> simp
+
+/-- `path_iterate(path)`: no access outside the allocation, and the returned
+pointer is the index at which `iterRef p` (and the terminator) begins -/
+theorem pathIterateP_safe (p junk : Str) (hn : NUL ∉ p) :
+    ∃ r, pathIterateP (p ++ NUL :: junk) 0 = .ok r ∧
+      (if p.isEmpty then none else some (iterRef p ++ NUL :: junk)) = r.map (fun q => (p ++ NUL :: junk).drop q) :=
+  pathIterateP_eq (p ++ NUL :: junk) 0 _ (by rw [List.drop_zero]; exact pathIterate_spec p junk hn)
+
+example : NUL ∉ ([DOT, SLASH, 0x61#8] : Str) := by decide
+
+/-- 03ab9aa: `path_is_single_dot` loaded `path[1]` first — index 1 of the
+1-byte allocation of `""` (`pnext -`) -/
+theorem isSingleDotOrigP_overread_witness :
+    isSingleDotOrigP [NUL] 0 = .oob 1 ∧ isSingleDotP [NUL] 0 = .ok false := by decide
+
+
+/-! ## argvc_internal_split, pointer level -/
+
+/-- `argvc_internal_split` with explicit indices into the allocation of the
+terminated line and an `argv` array of exactly `argcmax` slots: no read or
+write outside the allocation (none behind the terminator), no store at or
+behind `argv[argcmax]`, all loops end; the result is that of the cursor model,
+for which `argvSplit_spec` / `argvSplit_writes` hold -/
+theorem argvSplitP_refines (text junk : Str) (argcmax : Nat) (hn : NUL ∉ text) :
+    ∃ r, argvSplitP (text ++ NUL :: junk) argcmax = .ok r ∧ argvSplit (text ++ NUL :: junk) argcmax = some r := by
+  obtain ⟨r, h, _⟩ := argvSplit_spec text junk argcmax hn
+  refine ⟨r, ?_, h⟩
+  have := argvSplitLoopP_eq argcmax ((text ++ NUL :: junk).length + 1) (text ++ NUL :: junk) 0 0 [] r (by omega)
+    (by rw [List.drop_zero]; exact h)
+  unfold argvSplitP
+  rw [this]
+  simp
+
+example : NUL ∉ ([0x61#8, SP, 0x62#8] : Str) := by decide
+
 end Igris.C19
